@@ -7,7 +7,7 @@ DESCRIPTION = {
              "keyring layout {default key, per-prefix keys, originator-only / responder-only key halves, mismatching keys, a key for the covering prefix installed on both ends "
              "*after* the URIs were first used - messages must then open under the new key with PyNaCl directly, ciphertexts under the superseded key are refused}, URIs/args/kwargs from the JSON domain (bytes, nesting, "
              "unicode) carrying a unique marker (also requests without any argument, whose result still carries it), and the direction {publish->event, call->invocation (exact or prefix registration with the concrete procedure in the invocation details), "
-             "yield->result incl. progressive results, error}.  Fault enumeration in transit: every single-byte "
+             "yield->result incl. progressive results, error - also with the error URI mapped to an exception class at the caller}.  Fault enumeration in transit: every single-byte "
              "alteration of the ciphertext (each position x a drawn non-zero XOR; thorough: several XOR values), truncations, swapping the envelope URI (ciphertext of a.b delivered "
              "under registration/subscription a.c) and replay under another key.  Oracle: untampered => handler/endpoint/caller receive exactly the sent args/kwargs, the WAMP "
              "message has enc_algo='cryptobox', a payload and no args/kwargs, and the serialized bytes do not contain the marker; tampered / wrong key / URI mismatch => the "
@@ -60,7 +60,7 @@ def strategy():
                                   "direction": st.sampled_from(["publish", "call", "call-error"]), "args": vals, "kwargs": kws,
                                   "ser": st.sampled_from(["json", "cbor", "msgpack"]), "xor": st.integers(1, 255), "seed": st.integers(0, 1 << 20),
                                   "empty": st.sampled_from([False, False, False, True]),
-                                  "progress": st.booleans(), "prefix_reg": st.sampled_from([False, False, True])})     # calls ask for progressive results: encrypted progressive chunks reach on_progress exactly or not at all    # a request without any arguments (the result still carries the secret)
+                                  "progress": st.booleans(), "prefix_reg": st.sampled_from([False, False, True]), "caller_defines": st.booleans()})     # calls ask for progressive results: encrypted progressive chunks reach on_progress exactly or not at all    # a request without any arguments (the result still carries the secret)
 
 
 def keyrings(layout):
@@ -268,6 +268,17 @@ def check_flow(c, n_xors=1):
                 del invoked[:]
                 p.ko.set_key("com.myapp.", p.rekey["make"]())
                 p.kr.set_key("com.myapp.", p.rekey["make"]())
+            class MappedError(Exception):
+                def __init__(self, *a, **k):
+                    Exception.__init__(self, *a)
+                    self.kwargs = k
+            if c.get("caller_defines"):
+                # the caller maps the error URIs to an exception class of its own: forged errors must still surface as encryption errors
+                o.session.define(MappedError, "com.myapp.error.e1")
+
+                class OtherMapped(MappedError):
+                    pass
+                o.session.define(OtherMapped, "com.myapp.error.other")
             prog = []
             call_kwargs = dict(kwargs)
             if c.get("progress") and c["direction"] == "call":
@@ -400,7 +411,10 @@ def check_flow(c, n_xors=1):
                 if err is not None:
                     raise Violation("C20|error|onMessage-raised|" + exc_key(err), repr(err), c)
                 v = tr_call.value
-                if tr_call.n != 1 or tr_call.ok or not isinstance(v, ApplicationError) or v.error != "com.myapp.error.e1" or norm(list(v.args)) != norm(args) or norm(v.kwargs) != norm(kwargs):
+                if c.get("caller_defines"):
+                    if tr_call.n != 1 or tr_call.ok or type(v) is not MappedError or norm(list(v.args)) != norm(args) or norm(v.kwargs) != norm(kwargs):
+                        raise Violation("C20|error|payload-not-recovered", "caller (class registered for the URI) got %r args=%r kwargs=%r" % (v, getattr(v, "args", None), getattr(v, "kwargs", None)), c)
+                elif tr_call.n != 1 or tr_call.ok or not isinstance(v, ApplicationError) or v.error != "com.myapp.error.e1" or norm(list(v.args)) != norm(args) or norm(v.kwargs) != norm(kwargs):
                     raise Violation("C20|error|payload-not-recovered", "caller got %r args=%r kwargs=%r" % (v, getattr(v, "args", None), getattr(v, "kwargs", None)), c)
         return stats
     finally:
@@ -418,7 +432,7 @@ def flows(col, seed, n, xors):
             if in_autobahn(e):
                 raise Violation("C20|exception|" + exc_key(e), repr(e), c)
             raise
-        col.case(True, dig=c, cls=["layout:" + c["layout"], "direction:" + c["direction"], "ser:" + c["ser"]] + (["request-without-arguments"] if c.get("empty") else []) + (["progressive-results"] if c.get("progress") and c["direction"] == "call" else []) + (["prefix-registration"] if c.get("prefix_reg") and c["direction"] != "publish" else []), sample=dict(c, tampered_variants=stats["tampered"]))
+        col.case(True, dig=c, cls=["layout:" + c["layout"], "direction:" + c["direction"], "ser:" + c["ser"]] + (["request-without-arguments"] if c.get("empty") else []) + (["progressive-results"] if c.get("progress") and c["direction"] == "call" else []) + (["prefix-registration"] if c.get("prefix_reg") and c["direction"] != "publish" else []) + (["error-uri-mapped-to-class-at-caller"] if c.get("caller_defines") and c["direction"] == "call-error" else []), sample=dict(c, tampered_variants=stats["tampered"]))
         col.count("tampered-ciphertexts", stats["tampered"])
     run_hypothesis(col, "flows", strategy(), body, n, seed)
 
